@@ -40,6 +40,7 @@ class Survey:
         self.extra_desc = "session"
         self.allopt = net.get("allopt", [])
         self.feat = set()            # optional forms of the input language (edit InputFeatures)
+        self.lonesets = []           # (station, target, readings): direction sets with a single target (edit LoneSet)
 
     # ---------------------------------------------------------------- geometry
     def pt(self, pid):
@@ -175,7 +176,7 @@ class Survey:
                 else:
                     e["to"] = self.name(o["to"])
                 e["val"] = self.fmt_ang(v) if o["t"] in ANGULAR else "%.8f" % v
-                e["stdev"] = "%.6f" % self.sd(o["t"])
+                e["stdev"] = "%.6f" % (o.get("sd") or self.sd(o["t"]))
                 if o["fdh"]:
                     e["from_dh"] = "%.4f" % o["fdh"]
                 if o["tdh"]:
@@ -202,9 +203,14 @@ class Survey:
                     del e_["stdev"]
                 cl["cov"] = {"dim": len(ol), "band": 1, "el": el}
             clusters.append(cl)
+        for (st, tg, cnt) in self.lonesets:
+            # repeated readings of one target, spread by a few cc: had the set taken part, the spread would show in the sum of squares
+            ol = [{"t": "direction", "to": self.name(tg), "val": self.fmt_ang(self.sense(self.bearing(st, tg) - 77.7731 + (i - (cnt - 1) / 2.0) * 8e-4)),
+                   "stdev": "%.6f" % self.sd("direction")} for i in range(cnt)]
+            clusters.append({"type": "obs", "from": self.name(st), "obs": ol})
         dhs = [o for o in self.obs if o["t"] == "dh"]
         if dhs:
-            ol = [{"from": self.name(o["fr"]), "to": self.name(o["to"]), "val": "%.8f" % self.value(o), "stdev": "%.4f" % STDEV["dh"]} for o in dhs]
+            ol = [{"from": self.name(o["fr"]), "to": self.name(o["to"]), "val": "%.8f" % self.value(o), "stdev": "%.4f" % (o.get("sd") or STDEV["dh"])} for o in dhs]
             if "dh_dist" in self.feat or "dh_dist_only" in self.feat:
                 for k_, e_ in enumerate(ol):
                     e_["dist"] = "%.4f" % (0.25 + 0.1 * k_)              # km
@@ -460,6 +466,19 @@ def apply_edit(sv, e):
             p["role"] = "unk"
             m = e["s"]
             p["con"] = {1: False, 2: i == 0, 3: i < 2, 4: True, 5: "z", 6: ("xy" if i < 2 else False)}[m]
+    elif k == "WeakPoint":
+        a, b = s.pts[0], s.pts[1]
+        wid = "0W" if e["s"] == 1 else "W"
+        s.pts.append(dict(id=wid, e=a["e"] + 130.0, n=a["n"] - 70.0, u=a["u"] + 20.0, role="unk", con=False, approx="given", pert=(0.0, 0.0, 0.0)))
+        s.names[wid] = wid
+        if s.dim == 1:
+            new = [dict(t="dh", fr=wid, to=a["id"], to2="", k=len(s.obs), fdh=0.0, tdh=0.0, swap=False, passive=False, sd=20000.0)]
+        else:
+            new = [dict(t="distance", fr=wid, to=q["id"], to2="", k=len(s.obs) + i, fdh=0.0, tdh=0.0, swap=False, passive=False, sd=20000.0) for i, q in enumerate((a, b))]
+        s.obs = new + s.obs if e["s"] == 1 else s.obs + new
+    elif k == "LoneSet":
+        first, second, last = s.pts[0]["id"], s.pts[1]["id"], s.pts[-1]["id"]
+        s.lonesets = list(sv.lonesets) + [{1: (first, second, 1), 2: (first, second, 2), 3: (first, last, 3), 4: (last, first, 2)}[e["s"]]]
     elif k == "Isolate":
         a = s.pts[0]
         qe, qn = {1: (1, 1), 2: (1, 1), 3: (-1, 1), 4: (1, -1), 5: (1, -1)}[e["s"]]          # quadrant of the single sight
@@ -628,13 +647,18 @@ def check_law(A, B, e, law, svA, svB, report, tolc=3e-6):
                     report("cov", "covariance %s: %r -> %r" % (key, v, w))
     # --- error ellipses (semi-axes; direction of the major axis as a physical line)
     if law["cov"] in ("same", "perm", "axes") and A.get("ell") is not None and B.get("ell") is not None:
+        # the semi-axes are square roots of the eigenvalues of a 2x2 covariance block: a relative error r of the covariances moves a
+        # vanishing minor axis by major * sqrt(r), so the axes are compared by their squares on the scale of the major axis; the
+        # ellipse of a point whose covariances vanish (a constrained point that alone carries the datum) has no direction
+        top = max([x["major"] for x in A["ell"].values()] + [x["major"] for x in B["ell"].values()] + [1e-12])
         for pid, ea in A["ell"].items():
             eb = B["ell"].get(pid)
             if eb is None:
                 continue
-            if not rel(ea["major"], eb["major"], ctol, 1e-3) or not rel(ea["minor"], eb["minor"], ctol, 1e-3):
+            sc = max(ea["major"], eb["major"], 1e-3) ** 2
+            if abs(ea["major"] ** 2 - eb["major"] ** 2) > 2 * ctol * sc or abs(ea["minor"] ** 2 - eb["minor"] ** 2) > 2 * ctol * sc:
                 report("ellipse_axes", "ellipse of %s: semi-axes %r,%r -> %r,%r" % (pid, ea["major"], ea["minor"], eb["major"], eb["minor"]))
-            elif ea["major"] > 1.001 * ea["minor"]:
+            elif ea["major"] > 1.001 * ea["minor"] and ea["major"] > 1e-4 * top:
                 # angle between the two physical lines
                 d = abs(ea["dir"][0] * eb["dir"][1] - ea["dir"][1] * eb["dir"][0])
                 if d > 2e-4 * loose:
